@@ -53,7 +53,8 @@ import (
 //	L  load          Store.Load of a SQLite file (goes through the raft log)
 //	B  boot          Store.ReadFrom of a SQLite file (bypasses the log, snapshots itself)
 //	R  reap          Store.Reap()
-//	X  restart       Close (no snapshot on close) + Open of the same directory
+//	X  restart       Close (no snapshot on close) + a NEW Store object opened on the same
+//	                 directory (nothing of the old object's memory survives, as in a new process)
 //
 // Oracle, evaluated in EVERY state (= at the end of every enumerated history):
 //
@@ -75,16 +76,22 @@ import (
 //
 // State key (states with equal keys are expanded once): see c04Exec.key. It is made of
 // everything the snapshot/restore machinery can observe: per snapshot directory its kind
-// and number of WAL files, the number of staged WAL files (and whether the directory
-// exists), FULL_NEEDED, whether the live WAL holds data, whether the database file looks
-// modified to the store, whether a configuration entry is ahead of the FSM, whether the
-// clean-snapshot marker exists, the number of command entries in the log after the newest
-// snapshot, the digest of the live database, the digest of the database the newest
-// snapshot must restore to, and the digests of the staged WAL files' frame structure
-// (page numbers). Two histories with equal keys have the same files with the same
-// contents in every place the code under test reads (up to raft indexes and timestamps in
-// names, which only order snapshots and are ordered the same way), so every continuation
-// behaves identically on both.
+// and number of WAL files; the staged WAL files (count, frame structure, whether each
+// predates the newest full snapshot) and whether the staging directory exists;
+// FULL_NEEDED; whether the live WAL holds data; whether the database file looks modified
+// to the store and whether the store remembers a modification time at all (memory only,
+// lost by a restart); whether a configuration entry is ahead of the FSM; the number of
+// servers; whether the clean-snapshot marker exists; the number of command entries in the
+// log after the newest snapshot; the digest of the live database; the digest of the
+// database the newest snapshot must restore to; which load file and which row of p the
+// next load/boot and small write will use. Two histories with equal keys have the same
+// files with the same logical contents in every place the code under test reads, and the
+// same in-memory inputs of the full/incremental decision; raft indexes and the
+// timestamps in snapshot names differ, but they only order snapshots, and are ordered
+// the same way. So every continuation takes the same branches on both and is judged
+// against the same expected databases. (Older snapshots enter only through reap, which
+// folds the newest full snapshot and everything after it into one: their combined content
+// is the digest of the newest snapshot.)
 
 const c04Alphabet = "wWSKFLBRX"
 
